@@ -108,7 +108,7 @@ pub open spec fn call_value_ok(r: Result<SourcedValue>, body: Result<Escape>) ->
 SPEC = r"""
     ensures
         // arguments are evaluated first (once, via eval_list_items), then the callee
-        callee_of(old(scopes).world(), args@, *func) is None ==> r is Err, // [C14:failing_argument_or_callee_expression_fails_the_call]
+        callee_of(old(scopes).world(), args@, *func) is None ==> r is Err, // [C14_C17:arguments_are_evaluated_before_the_callee_and_a_failing_argument_or_callee_expression_fails_the_call]
         callee_of(old(scopes).world(), args@, *func) matches Some(c) ==> (c.1.v matches Value::Func(f) ==>
             (!arity_ok(f.0.0, c.0@.len() as int) ==> r is Err
                 && (r->Err_0 matches Error::AtLoc{source, line, col} && line == *loc.0 && col == *loc.1
@@ -117,7 +117,7 @@ SPEC = r"""
         callee_of(old(scopes).world(), args@, *func) matches Some(c) ==> (c.1.v matches Value::Func(f) ==>
             (arity_ok(f.0.0, c.0@.len() as int) ==> exists|bs: Seq<(Expr, SourcedValue)>|
                 #[trigger] bindings_ok(bs, f.0.0, c.0@, c.1.source)
-                && call_value_ok(r, sem_scoped(f.0.0.closure.world(), bs, f.0.0.stmts@).0))), // [C07_C13_C14:parameters_get_the_arguments_in_order_rest_gets_the_surplus_this_is_the_source_body_runs_on_the_closure_chain_and_return_value_or_null_is_the_call_value]
+                && call_value_ok(r, sem_scoped(f.0.0.closure.world(), bs, f.0.0.stmts@).0))), // [C07_C13_C14_C20:parameters_get_the_arguments_in_order_rest_gets_the_surplus_this_is_the_source_body_runs_on_the_closure_chain_and_return_value_or_null_is_the_call_value]
         callee_of(old(scopes).world(), args@, *func) matches Some(c) ==> (c.1.v matches Value::BuiltinFunc{name, f} ==>
             (match sem_builtin(f, this_of(c.1.source), c.0@) { Ok(v) => r == Ok::<SourcedValue, Error>(v), Err(_) => r is Err })), // [C14:builtin_receives_the_arguments_and_the_source_as_this]
         callee_of(old(scopes).world(), args@, *func) matches Some(c) ==> (!(c.1.v is Func) && !(c.1.v is BuiltinFunc) ==>
